@@ -122,6 +122,32 @@ class Rec(object):
         return self
 
 
+class Hang(BaseException):
+    """raised by the watchdog; BaseException so that `except Exception` in code under test does not swallow it"""
+
+
+class watchdog(object):
+    """with watchdog(seconds): ...  -- turns a hang into a Hang exception (main thread only)."""
+
+    def __init__(self, seconds):
+        self.seconds = seconds
+
+    def _fire(self, signum, frame):
+        raise Hang()
+
+    def __enter__(self):
+        import signal
+        self.old = signal.signal(signal.SIGALRM, self._fire)
+        signal.setitimer(signal.ITIMER_REAL, self.seconds)
+        return self
+
+    def __exit__(self, *a):
+        import signal
+        signal.setitimer(signal.ITIMER_REAL, 0)
+        signal.signal(signal.SIGALRM, self.old)
+        return False
+
+
 class Budget(object):
     def __init__(self, seconds):
         self.t_end = time.time() + seconds if seconds else None
